@@ -36,7 +36,12 @@ def ops_events(trace):
 
 
 def ev_to_lines(e, expand_ranges):
+    """Script line(s) for a logged event.  The log carries ttls in clock ticks, scripts in ttl units."""
     o = e["op"]
+    if o in ("ins", "uttl"):
+        e = dict(e, d=e["d"] // vlib.R)
+    if o == "insr":
+        e = dict(e, kv=[[x[0], x[1], x[2] // vlib.R] for x in e["kv"]])
     if o == "ins":
         return ["ins %d %d %d %d" % (e["k"], e["v"], e["a"], e["d"])]
     if o == "era":
